@@ -107,7 +107,9 @@ Lemma tuple_read_bytes_enc c rest : wf_opt_bytes c -> out tuple_read_bytes (enc_
 Proof.
   intros Hc. unfold tuple_read_bytes, enc_bytes. destruct c as [s|]; cbn [wf_opt_bytes] in Hc.
   - rewrite <- app_assoc. obind. rewrite out_take_app by reflexivity. rewrite len_blen in *. pose proof (blen_nonneg s).
-    rewrite enc_int_val by lia. destruct (Z.ltb_spec (blen s) 0); [lia|]. obind. rewrite out_take_app by reflexivity. reflexivity.
+    rewrite enc_int_val by lia. destruct (Z.ltb_spec (blen s) 0); [lia|]. obind. rewrite out_get_len.
+    pose proof (blen_nonneg rest). destruct (Z.ltb_spec (blen (s ++ rest)) (blen s)) as [Hlt|Hge]; [rewrite blen_app in Hlt; lia|].
+    obind. rewrite out_take_app by reflexivity. reflexivity.
   - obind. rewrite out_take_app by reflexivity. rewrite enc_int_val by lia. reflexivity.
 Qed.
 
@@ -135,10 +137,7 @@ Proof.
 Qed.
 
 Lemma read_column_enc c rest : wf_opt_bytes c -> out read_column (enc_bytes c ++ rest) = Ok (c, rest).
-Proof.
-  intros Hc. unfold read_column. obind. rewrite out_get_len. pose proof (blen_enc_bytes_ge4 c rest).
-  destruct (Z.ltb_spec (blen (enc_bytes c ++ rest)) 4); [lia|]. apply read_bytes_enc, Hc.
-Qed.
+Proof. intros Hc. unfold read_column. apply read_bytes_enc, Hc. Qed.
 
 Definition col_width (c : scol) : Z := match sc_type c with STuple elems => count elems | _ => 1 end.
 
@@ -151,63 +150,64 @@ Proof.
   destruct (sc_type c); lia.
 Qed.
 
-(* no column is a tuple without components (CQL has no empty tuple) *)
-Definition no_empty_tuple (c : scol) : Prop := match sc_type c with STuple [] => False | _ => True end.
+Lemma count_zero_nil {A} (l : list A) : count l <= 0 -> l = [].
+Proof. destruct l; [reflexivity|]. unfold count. simpl length. lia. Qed.
 
-Lemma col_width_pos c : no_empty_tuple c -> 1 <= col_width c.
-Proof.
-  unfold no_empty_tuple, col_width, count. destruct (sc_type c) as [| | | | | |[|e es]]; intros H; try lia; try contradiction.
-  simpl length. lia.
-Qed.
-
-Lemma scan_cols_enc g : forall cols row rest,
-  Forall no_empty_tuple cols -> wf_row cols row ->
+Lemma scan_cols_enc g : forall cols row rest, wf_row cols row ->
   out (scan_cols (map (view_col g) cols) (scan_width cols)) (enc_row row ++ rest) = Ok (view_row cols row, rest).
 Proof.
-  induction cols as [|c cols IH]; intros row rest Hne Hw; inversion Hw as [|? cellv ? row' Hc Hrow]; subst.
-  - reflexivity.
-  - inversion Hne as [|? ? Hc1 Hne']; subst. pose proof (col_width_pos c Hc1) as Hpos. pose proof (scan_width_nonneg cols) as Hnn.
-    cbn [map scan_cols]. unfold enc_row, view_row. cbn [map concat combine fst snd]. rewrite <- app_assoc.
-    rewrite scan_width_cons. unfold wf_cell in Hc. unfold col_width in *. unfold view_cells.
-    unfold view_col at 1. cbn [c_type].
-    destruct (sc_type c) as [cl|id|e|k v|e|ks n fs|es] eqn:Et; destruct cellv as [v0|comps]; try contradiction;
-      try (cbn [enc_cell view_type]; obind; rewrite read_column_enc by assumption;
-           destruct (Z.leb_spec (1 + scan_width cols) 0); [lia|];
-           obind; replace (1 + scan_width cols - 1) with (scan_width cols) by lia;
-           fold (enc_row row'); rewrite IH by assumption; rewrite out_ret; reflexivity).
-    (* tuple column *)
-    rewrite view_type_tuple. obind.
-    destruct comps as [comps|].
-    + destruct Hc as (Hlen & Hwf & Hsz). cbn [enc_cell]. rewrite read_column_enc by (cbn [wf_opt_bytes]; assumption).
-      destruct (Z.leb_spec (count es + scan_width cols) 0); [lia|].
-      rewrite map_length. fold (count es). destruct (Z.gtb_spec (count es) (count es + scan_width cols)); [lia|].
-      obind. rewrite out_on_cell. cbn [opt_bytes]. rewrite unmarshal_tuple_cells_enc by assumption.
-      obind. replace (count es + scan_width cols - count es) with (scan_width cols) by lia.
-      fold (enc_row row'). rewrite IH by assumption. rewrite out_ret. reflexivity.
-    + cbn [enc_cell]. rewrite read_column_enc by exact I.
-      destruct (Z.leb_spec (count es + scan_width cols) 0); [lia|].
-      rewrite map_length. fold (count es). destruct (Z.gtb_spec (count es) (count es + scan_width cols)); [lia|].
-      obind. rewrite out_on_cell. cbn [opt_bytes].
-      assert (U0 := unmarshal_tuple_cells_enc es [] ltac:(simpl; lia) ltac:(constructor)). cbn [map concat] in U0. rewrite U0.
-      obind. replace (count es + scan_width cols - count es) with (scan_width cols) by lia.
-      fold (enc_row row'). rewrite IH by assumption. rewrite out_ret. reflexivity.
+  induction cols as [|c cols IH]; intros row rest Hw; inversion Hw as [|? cellv ? row' Hc Hrow]; subst; [reflexivity|].
+  pose proof (scan_width_nonneg cols) as Hnn.
+  cbn [map scan_cols]. unfold enc_row, view_row. cbn [map concat combine fst snd]. rewrite <- app_assoc.
+  rewrite scan_width_cons. unfold wf_cell in Hc. unfold col_width in *. unfold view_cells.
+  change (c_type (view_col g c)) with (view_type (sc_type c)).
+  destruct (sc_type c) as [cl|id|e|k v|e|ks n fs|es] eqn:Et; destruct cellv as [v0|comps]; try contradiction;
+    try (cbn [enc_cell view_type]; obind; rewrite read_column_enc by assumption;
+         destruct (Z.leb_spec (1 + scan_width cols) 0); [lia|];
+         obind; replace (1 + scan_width cols - 1) with (scan_width cols) by lia;
+         fold (enc_row row'); rewrite IH by assumption; rewrite out_ret; reflexivity).
+  (* tuple column *)
+  rewrite view_type_tuple. obind. pose proof (Zle_0_nat (length es)) as Hce. fold (count es) in Hce.
+  assert (Hdata : wf_opt_bytes (match comps with Some l => Some (concat (map enc_bytes l)) | None => None end)).
+  { destruct comps as [l|]; [destruct Hc as (_ & _ & Hsz); exact Hsz | exact I]. }
+  assert (Henc : enc_cell (CellTuple comps) = enc_bytes (match comps with Some l => Some (concat (map enc_bytes l)) | None => None end)).
+  { destruct comps; reflexivity. }
+  rewrite Henc. rewrite read_column_enc by exact Hdata.
+  assert (Hcells : out (unmarshal_tuple_cells (map view_type es))
+                       (opt_bytes (match comps with Some l => Some (concat (map enc_bytes l)) | None => None end))
+                   = Ok (pad_components es (match comps with Some l => l | None => [] end), [])).
+  { destruct comps as [l|].
+    - destruct Hc as (Hlen & Hwf & _). cbn [opt_bytes]. apply unmarshal_tuple_cells_enc; assumption.
+    - cbn [opt_bytes]. assert (U0 := unmarshal_tuple_cells_enc es [] ltac:(simpl; lia) ltac:(constructor)). exact U0. }
+  destruct (Z.leb_spec (count es + scan_width cols) 0) as [Hz|Hpos].
+  - (* no destination at all: the tuple has no components *)
+    assert (es = []) by (apply count_zero_nil; lia). subst es. cbn [map].
+    replace (count [] + scan_width cols) with (scan_width cols) by (unfold count; simpl length; lia).
+    fold (enc_row row'). rewrite IH by assumption.
+    cbn [pad_components app]. reflexivity.
+  - rewrite map_length. fold (count es). destruct (Z.gtb_spec (count es) (count es + scan_width cols)); [lia|].
+    (* the match on the shape of the element list does not matter once a destination is left *)
+    assert (Hbranch : forall (P0 P1 : P (list cell)), (match map view_type es with [] => P1 | _ :: _ => P1 end) = P1) by (intros; destruct (map view_type es); reflexivity).
+    obind. rewrite out_on_cell. rewrite Hcells.
+    obind. replace (count es + scan_width cols - count es) with (scan_width cols) by lia.
+    fold (enc_row row'). rewrite IH by assumption. rewrite out_ret. reflexivity.
 Qed.
 
 Lemma scan_row_enc m row rest :
-  sm_nometa m = false -> Forall no_empty_tuple (sm_cols m) -> wf_row (sm_cols m) row ->
+  sm_nometa m = false -> wf_row (sm_cols m) row ->
   out (scan_row (view_meta m) (scan_width (sm_cols m))) (enc_row row ++ rest) = Ok (view_row (sm_cols m) row, rest).
 Proof.
-  intros Hn Hne Hw. unfold scan_row, view_meta. cbn [m_actual m_cols]. rewrite Hn. rewrite Z.eqb_refl. cbn [negb].
+  intros Hn Hw. unfold scan_row, view_meta. cbn [m_actual m_cols]. rewrite Hn. rewrite Z.eqb_refl. cbn [negb].
   apply scan_cols_enc; assumption.
 Qed.
 
-Lemma iter_scans_enc m : sm_nometa m = false -> Forall no_empty_tuple (sm_cols m) ->
+Lemma iter_scans_enc m : sm_nometa m = false ->
   forall rows pos, Forall (wf_row (sm_cols m)) rows -> 0 <= pos ->
   iter_scans (S (length rows)) (view_meta m) (pos + count rows) (scan_width (sm_cols m))
              {| it_pos := pos; it_err := None; it_buf := enc_rows rows |}
   = map (fun r => SRow (view_row (sm_cols m) r)) rows ++ [SFalse None].
 Proof.
-  intros Hn Hne. induction rows as [|row rows IH]; intros pos Hw Hp.
+  intros Hn. induction rows as [|row rows IH]; intros pos Hw Hp.
   - cbn [iter_scans iter_scan it_err it_pos length map app]. unfold count. cbn [length].
     destruct (Z.geb_spec pos (pos + Z.of_nat 0)); [reflexivity|lia].
   - inversion Hw; subst. cbn [length]. cbn [iter_scans]. unfold iter_scan at 1. cbn [it_err it_pos it_buf].
